@@ -1,7 +1,7 @@
 (* Pinned statements of C08 (generated once by tools/mkpins.py from coq/props/C08.v, then committed). *)
 From DV Require Import Model.Base Model.NameCheck Model.Parser Model.Header Model.Readers Model.Uncompress
   Model.Mutate Model.Compress Model.Renamer Spec.PacketSpec Spec.RecordSpec Spec.PlainSpec Proofs.Hoare Proofs.HeaderBits Proofs.InsertLemmas Proofs.EdnsPlain Proofs.WalkSkip
-  Proofs.PlainWf Proofs.ViewAfter Proofs.InsertSpec Proofs.HeaderInv Proofs.CursorHist Proofs.DecompressFirst Proofs.FreshHist Proofs.DeleteInv Proofs.SetNameInv Proofs.WalkInv Proofs.RenameCursor Spec.NameSpec Proofs.RenameSpec Proofs.RenameContent Proofs.WalkFresh Proofs.RenameAny props.C08.
+  Proofs.PlainWf Proofs.ViewAfter Proofs.InsertSpec Proofs.HeaderInv Proofs.CursorHist Proofs.DecompressFirst Proofs.FreshHist Proofs.DeleteInv Proofs.SetNameInv Proofs.WalkInv Proofs.RenameCursor Spec.NameSpec Proofs.RenameSpec Proofs.RenameContent Proofs.WalkFresh Proofs.RenameAny Proofs.RenameTotal props.C08.
 Check (C08_decompression_keeps_edns_summary : forall p v q v',
   bytes_ok p -> parse p = Ok v -> uncompress p = Ok q -> parse q = Ok v' ->
   pp_edns_count v' = pp_edns_count v /\ pp_ext_rcode v' = pp_ext_rcode v /\ pp_edns_version v' = pp_edns_version v /\
@@ -125,3 +125,11 @@ Print Assumptions C08_step_with_rename.
 Check (C08_histories_with_rename : forall p v it ops s', bytes_ok p -> parse p = Ok v -> is_response p -> it_section it <> SQuestion ->
   ok_along4 ops (v, it) -> run_hops4 ops (v, it) = (s', Ok tt) -> objst (fst s') /\ snd s' = it /\ is_response (pp_packet (fst s'))).
 Print Assumptions C08_histories_with_rename.
+Check (C08_step_with_rename_total : forall o v it, objst v -> is_response (pp_packet v) -> it_section it <> SQuestion -> hop4_ok_at v o ->
+  exists s1 r, run_hop4 o (v, it) = (s1, r) /\ (r = Ok tt \/ exists e, r = Err e) /\
+               objst (fst s1) /\ snd s1 = it /\ is_response (pp_packet (fst s1))).
+Print Assumptions C08_step_with_rename_total.
+Check (C08_histories_with_rename_total : forall p v it ops, bytes_ok p -> parse p = Ok v -> is_response p -> it_section it <> SQuestion ->
+  ok_along4_tol ops (v, it) ->
+  exists s', run_hops4_tol ops (v, it) = (s', Ok tt) /\ objst (fst s') /\ snd s' = it /\ is_response (pp_packet (fst s'))).
+Print Assumptions C08_histories_with_rename_total.
